@@ -1209,6 +1209,7 @@ def panic_driver(name, K, nlo=-1, nhi=3):
 	}()
 	it := %(name)s(a, b, n, g1, g2, g3)
 	rt.Emit(rt.CREATED, 0)
+	rt.Emit(rt.RESULT, it.Current()) // reading before the first advance runs nothing (and cannot panic)
 	for k := 0; k < %(K)d; k++ {
 		stop := false
 		func() {
@@ -1751,7 +1752,7 @@ def c04_programs(strlens=(0, 1, 2, 3), only_int=False):
     kinds.append(("slice0", ["sl := []int{}"], "sl", "int", "int", ["sl = append(sl, a + 9)"]))
     kinds.append(("slicenil", ["var sl []int"], "sl", "int", "int", ["sl = append(sl, a + 9)"]))
     kinds.append(("array", ["arr := [3]int{a, b, a + 1}"], "arr", "int", "int", ["arr[1] = b + 7", "arr[2] = arr[0] + 1"]))
-    kinds.append(("mapii", ["m := map[int]int{1: a, 2: b, 3: a + b}"], "m", "int", "int", ["delete(m, 2)", "m[3] = b + 7", "delete(m, 3)"]))
+    kinds.append(("mapii", ["m := map[int]int{1: a, 2: b, 3: a + b}"], "m", "int", "int", ["delete(m, 2)", "m[3] = b + 7", "delete(m, 3)", "m[9] = a + 9"]))
     kinds.append(("mapnil", ["var m map[int]int"], "m", "int", "int", []))
     # observers between receives: the number of buffered elements, a second receiver
     kinds.append(("chan", ["ch := make(chan int, 3)\nch <- a\nch <- b\nch <- a + b\nclose(ch)"], "ch", "int", None,
@@ -1998,6 +1999,9 @@ def c06_consumer(rng, shape):
         return head + "\tvar arr [4]int\n\tq := &arr[0]\n\tj := 0\n\tfor *q = range %s {\n\t\tj++\n\t\tif j >= 4 {\n\t\t\tbreak\n\t\t}\n\t\tq = &arr[j]\n\t}\n\tfor _, d := range arr {\n\t\trt.Emit(49, d)\n\t\tt = (t << 1) ^ d\n\t}\n" % fin + tail
     if shape == "assign_to_map_entry_moving_key":
         return head + "\tm := map[int]int{}\n\tk := 0\n\tfor m[k] = range %s {\n\t\tk++\n\t\tif k >= 3 {\n\t\t\tbreak\n\t\t}\n\t}\n\tfor q := 0; q < 3; q++ {\n\t\trt.Emit(49, m[q])\n\t\tt = (t << 1) ^ m[q]\n\t}\n" % fin + tail
+    if shape == "peek_before_range":
+        # Current() on an iterator that was never advanced reads the zero value and runs nothing
+        return head + "\tit := %s\n\tprev := it.Current()\n\trt.Emit(46, prev)\n\tcur := struct {\n\t\tit   Iter[int]\n\t\tlast int\n\t}{it: %s}\n\tcur.last = cur.it.Current()\n\trt.Emit(46, cur.last)\n\tfor v := range it {\n%s\n\t}\n\tif cur.it.MoveNext() {\n\t\tt = (t << 1) ^ cur.it.Current()\n\t}\n" % (src, fin, indent(c06_loop_body(rng, "v"), 2)) + tail
     if shape == "consumer_generator_switch":
         # a generator that consumes another iterator: range over an Iter with switch / continue / break around yields
         return ("func CG@(a, n int, g1, g2 bool) (_ Iter[int]) {\n\tfor v := range GA@(a, n) {\n\t\tswitch {\n\t\tcase v&1 == 1:\n\t\t\tYield(v)\n\t\t\tcontinue\n\t\tcase g1:\n\t\t\tYield(v + 1)\n\t\t\tif g2 {\n\t\t\t\tbreak\n\t\t\t}\n\t\t\tYield(v + 2)\n\t\t}\n\t\tYield(v + 3)\n\t}\n\treturn\n}\n\n" +
@@ -2023,7 +2027,7 @@ C06_SHAPES = ["range_define", "range_assign", "nested", "pull_then_range", "rang
               "field_reassigned_in_loop", "index_changed_in_loop", "map_entry_reassigned_in_loop", "operand_evaluated_once",
               "first_match_nested", "first_element",
               "assign_to_element_moving_index", "assign_to_field_moving_pointer", "assign_to_deref_moving_pointer", "assign_to_map_entry_moving_key",
-              "typed_nil_marker", "typed_nil_reset", "loopvar_redeclared_in_body", "loopvar_shadowed_first_stmt", "consumer_generator_switch"]
+              "typed_nil_marker", "typed_nil_reset", "loopvar_redeclared_in_body", "loopvar_shadowed_first_stmt", "consumer_generator_switch", "peek_before_range"]
 
 
 def c06_programs(rng, per_shape):
@@ -2207,6 +2211,9 @@ def c12_injections():
     I.append(("yield_in_switch_init", [("raw", "switch Yield(a + 922); {\ncase g3:\n\tYield(b + 923)\n}")]))
     I.append(("go_yield", [("raw", "go Yield(a + 924)"), Y("b + 925")]))
     I.append(("yield_in_case_expr_call", [("raw", "switch {\ncase func() bool { rt.Emit(rt.EFF, 926); return g3 }():\n\tYield(a + 927)\n}")]))
+    I.append(("fallthrough_after_yielding_if", [("raw", "switch a & 1 {\ncase 1:\n\tif g3 {\n\t\tYield(a + 996)\n\t}\n\tfallthrough\ncase 0:\n\tYield(b + 997)\n}")]))
+    I.append(("fallthrough_after_yielding_switch", [("raw", "switch a & 1 {\ncase 1:\n\tswitch b & 1 {\n\tcase 0:\n\t\tYield(a + 998)\n\t}\n\tfallthrough\ncase 0:\n\tYield(b + 999)\n}")]))
+    I.append(("fallthrough_after_yielding_loop", [("raw", "switch a & 1 {\ncase 1:\n\tfor fi := 0; fi < 2; fi++ {\n\t\tYield(fi + 1000)\n\t}\n\tfallthrough\ncase 0:\n\tYield(b + 1001)\n}")]))
     I.append(("yield_in_wrong_signature_literal", [("raw", "emit := func(v int) { Yield(v) }\nemit(a + 993)"), Y("b + 994")]))
     I.append(("yield_in_wrong_signature_literal_result", [("raw", "emit2 := func(v int) int {\n\tYield(v)\n\treturn v + 1\n}"), Y("emit2(a) + 995")]))
     I.append(("paren_yield", [("raw", "(Yield(a + 990))"), Y("b + 991")]))
